@@ -30,7 +30,7 @@ REQUIRED = ["route.list", "route.one-by-one", "route.scenario", "route.xml", "ro
             "kind.adjacent", "kind.crossing", "kind.nested", "provenance.placed-angle-0", "provenance.placed",
             "provenance.translate_rotate", "provenance.deepcopy", "provenance.after-setters",
             "provenance.source-object-used-before",
-            "obstacle-absent-at-query-time", "contains_points.single-point", "route.deferred-index", "route.pending-index", "route.merged", "qshape.u-polygon-around-lanelet-end", "get_obstacles.at-a-later-time-step", "empty-network.constructor", "empty-network.fresh-scenario", "empty-network.emptied-by-removal", "qshape.group-near-member-then-member-on-lanelet", "obstacle-with-group-shape", "contract.find_lanelet_by_shape/ShapeGroup", "route.deferred-remove",
+            "obstacle-absent-at-query-time", "contains_points.single-point", "route.deferred-index", "route.pending-index", "route.merged", "qshape.u-polygon-around-lanelet-end", "get_obstacles.at-a-later-time-step", "static-obstacle-with-later-time-step", "empty-network.constructor", "empty-network.fresh-scenario", "empty-network.emptied-by-removal", "qshape.group-near-member-then-member-on-lanelet", "obstacle-with-group-shape", "contract.find_lanelet_by_shape/ShapeGroup", "route.deferred-remove",
             "route.translate-before-index"]
 ASSUMPTIONS = ["lanelet polygons are simple (strips with strictly increasing abscissa)",
                "circle queries within 0.2% of the radius of a boundary are not judged (shapely discs are 64-gons)"]
@@ -249,8 +249,11 @@ def run(ctx):
             obstacles, descs = [], {}
             for j, (kind, shp, exact) in enumerate(shapes[:4]):
                 if isinstance(shp, Rectangle):
+                    # (a static obstacle occupies the same region at all times, whatever time step its state carries)
                     o = StaticObstacle(500 + j, ObstacleType.CAR, Rectangle(shp.length, shp.width),
-                                       InitialState(position=shp.center, orientation=shp.orientation, time_step=0))
+                                       InitialState(position=shp.center, orientation=shp.orientation, time_step=[0, 4][j % 2]))
+                    if j % 2:
+                        ctx.feature("static-obstacle-with-later-time-step")
                 elif isinstance(shp, Circle):
                     o = StaticObstacle(500 + j, ObstacleType.PEDESTRIAN, Circle(shp.radius),
                                        InitialState(position=shp.center, orientation=0.0, time_step=0))
